@@ -432,24 +432,10 @@ func (w *Watcher) Run(ctx context.Context) error {
 						expectedConfirmations = uint64(pLock.message.ConsistencyLevel)
 					}
 
-					// Transaction was dropped and never picked up again
-					if pLock.height+expectedConfirmations+w.maxWaitConfirmations <= blockNumberU {
-						logger.Info("observation timed out",
-							zap.Stringer("tx", pLock.message.TxHash),
-							zap.Stringer("blockhash", key.BlockHash),
-							zap.Stringer("emitter_address", key.EmitterAddress),
-							zap.Uint64("sequence", key.Sequence),
-							zap.Stringer("current_block", ev.Number),
-							zap.Bool("is_safe_block", ev.Safe),
-							zap.Stringer("current_blockhash", currentHash),
-							zap.String("eth_network", w.networkName),
-							zap.Uint64("expectedConfirmations", expectedConfirmations),
-							zap.Uint64("maxWaitConfirmations", w.maxWaitConfirmations),
-						)
-						ethMessagesOrphaned.WithLabelValues(w.networkName, "timeout").Inc()
-						delete(w.pending, key)
-						continue
-					}
+					// The message is abandoned once the abandonment window has passed - but only if it still could not be
+					// confirmed then (see the handling of transient errors below). However far the head has advanced since
+					// the previous poll, a message that is ready gets its receipt looked at first.
+					timedOut := pLock.height+expectedConfirmations+w.maxWaitConfirmations <= blockNumberU
 
 					// Transaction is now ready
 					if pLock.height+expectedConfirmations <= blockNumberU {
@@ -500,8 +486,26 @@ func (w *Watcher) Run(ctx context.Context) error {
 							continue
 						}
 
-						// Any error other than "not found" is likely transient - we retry next block.
+						// Any error other than "not found" is likely transient - we retry next block,
+						// until the abandonment window has passed.
 						if err != nil {
+							if timedOut {
+								logger.Info("observation timed out",
+									zap.Stringer("tx", pLock.message.TxHash),
+									zap.Stringer("blockhash", key.BlockHash),
+									zap.Stringer("emitter_address", key.EmitterAddress),
+									zap.Uint64("sequence", key.Sequence),
+									zap.Stringer("current_block", ev.Number),
+									zap.Bool("is_safe_block", ev.Safe),
+									zap.Stringer("current_blockhash", currentHash),
+									zap.String("eth_network", w.networkName),
+									zap.Uint64("expectedConfirmations", expectedConfirmations),
+									zap.Uint64("maxWaitConfirmations", w.maxWaitConfirmations),
+								)
+								ethMessagesOrphaned.WithLabelValues(w.networkName, "timeout").Inc()
+								delete(w.pending, key)
+								continue
+							}
 							logger.Warn("transaction could not be fetched",
 								zap.Stringer("tx", pLock.message.TxHash),
 								zap.Stringer("blockhash", key.BlockHash),
